@@ -74,9 +74,16 @@ CLAIMS = {
          "decided metamorphically on the implementation (7 transformations, n=2..6 with the verified closure attributing the side, n=8..16/24), repeated calls and a "
          "PYTHONHASHSEED sweep in fresh subprocesses.",
          "Lean proofs (permutation/duplication invariance of the model classifier; closure invariance under form maps) + metamorphic differential checks + hash-seed sweep"),
+ "C20": ("other", "6.C20", "Proved in Lean for ALL n, all collections of synchronised strings, all targets and ALL streams of random values: every collection the search moves to "
+         "is the current one or a contraction by an anticommuting member (C20_iterate_moves), a contraction keeps the commutator closure, the number of strings and "
+         "their length (C20_move_closure), hence every run that returns keeps closure and size (C20_run_preserves); the exhaustive exploration of the random choices "
+         "contains the result of every run (C20_explore_covers_run). Termination (no stuck retry loop, no IndexError) is NOT proved for all inputs: decided per input "
+         "by exploring every random choice in the model (n<=3/4), with the model tied to the code by scripted-randint correspondence; closure equality with the INPUT "
+         "(through the canonical vertices) and distinctness per input with the Lean-verified closure.",
+         "Lean invariant proof over all random streams + exhaustive exploration of random choices per input + scripted-randint correspondence"),
 }
 PENDING = {}
-ACTIVE = ["C04", "C18", "C17", "C14", "C01", "C02", "C08", "C09", "C10", "C15", "C12", "C13", "C03"]
+ACTIVE = ["C04", "C18", "C17", "C14", "C01", "C02", "C08", "C09", "C10", "C15", "C12", "C13", "C03", "C20"]
 def main():
     props = [json.loads(l) for l in open(os.path.join(V, "properties.jsonl"))]
     checks, na = [], []
